@@ -1484,7 +1484,14 @@ class ClientRequest(ClientRequestBase):
             # Force headers to be sent before waiting for 100-continue
             writer.send_headers()
             await writer.drain()
-            await self._continue
+            try:
+                await self._continue
+            except asyncio.CancelledError:
+                # The final response arrived without "100 Continue" (or the
+                # caller gave up): the announced body was never sent, so the
+                # peer would read the next request as that body.
+                conn.close()
+                raise
 
         protocol = conn.protocol
         assert protocol is not None
